@@ -39,6 +39,8 @@ func runC18(w *World, r *Report) {
 	ruleFold(w, r)
 	ruleIfaceEq(w, r)
 	ruleBoolArity(w, r)
+	// an operator's own arity/type errors are lost if the node is inlined as a leaf and never executed
+	ruleKind(w, r)
 }
 
 // ---- R-ALIAS ----------------------------------------------------------------
